@@ -13,4 +13,6 @@ RESERVED_WORDS = [
     "usepulses",
     "from",
     "as",
+    "branch",
+    "subcircuit",
 ]
